@@ -511,6 +511,9 @@ LeftoverBad(st) ==
                                    <<"C16", "actor state not released after its last owner was dropped">>}
               [] en.k = "retcall" -> {<<"C05", "ret_to target method not called by the end of run()">>}
               [] en.k = "fwdcall" -> {<<"C02", "Fwd call not delivered by the end of run()">>}
+              [] en.k = "failcall" -> {<<"C05", "ret_fail!/ret_failthru! Ret used or dropped but its target was not failed by the end of run()">>,
+                                       <<"C03", "failure passed on by a Ret did not take effect by the end of run()">>}
+              [] en.k = "dkill" -> {<<"C03", "queued kill did not take effect by the end of run()">>}
               [] OTHER -> {}
           : i \in 1..Len(st.mainQ) }
 
@@ -756,6 +759,9 @@ RetFire(st, rid, has, val) ==
   IN IF r.kind = "plain" \/ (r.kind = "somedo" /\ has) THEN [s1 EXCEPT !.expcb = Append(@, <<rid, has, val>>)]
      ELSE IF r.kind = "somedo" THEN s1
      ELSE IF r.kind = "someto" /\ ~has THEN [s1 EXCEPT !.rets[rid].cbs = @ + 1, !.expArg = rid]
+     ELSE IF r.kind = "retfail"      \* ret_fail!: used or dropped, its creator is failed
+     THEN AppendMain([s1 EXCEPT !.rets[rid].cbs = @ + 1],
+                     [Entry("failcall", 0, r.aid, FALSE, Tag(st)) EXCEPT !.code = "rf" \o ToString(rid)])
      ELSE IF r.kind \in {"to", "toprep"} \/ has
      THEN AppendMain([s1 EXCEPT !.rets[rid].cbs = @ + 1],
                      [Entry("retcall", rid, r.aid, r.kind = "toprep", Tag(st)) EXCEPT !.has = has, !.val = val])
@@ -864,7 +870,7 @@ ApplyEnd(st) ==
                       : aid \in DOMAIN st.actors }
       ibad == B(\E i \in DOMAIN st.items : i \notin st.tokdrop /\ st.items[i].q # "void",
                 "C16", "closure captures / message never dropped")
-      gbad == B(\E rid \in DOMAIN st.rets : st.rets[rid].kind \notin {"plain", "somedo"} /\ rid \notin st.argdrop,
+      gbad == B(\E rid \in DOMAIN st.rets : st.rets[rid].kind \notin {"plain", "somedo", "retfail"} /\ rid \notin st.argdrop,
                 "C05", "closure / fixed arguments behind a ret_to!-style Ret never released")
   IN R(st, gbad \cup rbad \cup abad \cup ibad \cup B(st.expcb # << >>, "C05", "Ret handler not invoked at the moment of ret()/drop"))
 
